@@ -138,6 +138,10 @@ fn run(ctx: &Ctx) -> Run {
         // random latitudes, log-concentrated at the equator and at the poles; neighbouring floats for fine monotonicity
         let n = ctx.n(4_000_000, 100_000_000) / threads as u64;
         for _ in 0..n {
+            // error paths must leave nothing behind: now and then a few rejected calls precede the judged ones
+            if rng.below(64) == 0 {
+                crate::orc::failed_call_history(&mut rng);
+            }
             let phi = match rng.below(4) {
                 0 => rng.log10(0.0, 16.0) * rng.sign(),
                 1 => (FRAC_PI_2 - rng.log10(0.0, 16.0)) * rng.sign(),
@@ -160,6 +164,10 @@ fn run(ctx: &Ctx) -> Run {
         // lon/lat pairs
         let n = ctx.n(4_000_000, 100_000_000) / threads as u64;
         for _ in 0..n {
+            // error paths must leave nothing behind: now and then a few rejected calls precede the judged ones
+            if rng.below(64) == 0 {
+                crate::orc::failed_call_history(&mut rng);
+            }
             let class = *rng.pick(&["uniform", "polar", "antimeridian", "fcentre", "wide"]);
             let (lon, lat) = if class == "wide" { (rng.range(-540.0, 540.0), rng.range(-90.0, 90.0)) } else { gen::point(&mut rng, &fr, class) };
             let lon = if rng.chance(0.1) { gen::wrap(&mut rng, lon).clamp(-540.0, 540.0) } else { lon };
